@@ -7,6 +7,7 @@ package main
 
 import (
 	"go/types"
+	"io/fs"
 
 	"golang.org/x/tools/go/ssa"
 )
@@ -182,4 +183,51 @@ func init() {
 		}
 		return e.deepEq(bx.msg, by.msg, types.NewPointer(bx.msg.Obj.Typ), map[string]bool{})
 	}
+}
+
+func init() {
+	// os.Lstat / os.Stat over the modelled directory: a FileInfo whose Mode is known (directory, symbolic link, regular).
+	stat := func(follow bool) func(e *Exec, fr *Frame, fn *ssa.Function, a []Value) Value {
+		return func(e *Exec, fr *Frame, fn *ssa.Function, a []Value) Value {
+			d, _ := e.pathAux["dir"].(*dirObj)
+			path := a[0].(StrV)
+			if d != nil {
+				for _, en := range d.ents {
+					full := strConcat(e.tf, chStr(e.tf, d.base+"/"), en.name)
+					if e.decide(strEq(e.tf, path, full)) {
+						mode := int64(0o644)
+						switch {
+						case en.kind == 1:
+							mode = int64(fs.ModeDir) | 0o755
+						case en.kind == 4 && !follow:
+							mode = int64(fs.ModeSymlink) | 0o777
+						}
+						o := e.newObj(StructV{}, nil)
+						o.Aux = mode
+						return TupleV{IfaceV{T: opaqueTypeOf("fileinfo"), V: Ptr{Obj: o}}, IfaceV{}}
+					}
+				}
+			}
+			return TupleV{IfaceV{}, e.newError("stat: no such file or directory")}
+		}
+	}
+	stubs["os.Lstat"] = stat(false)
+	stubs["os.Stat"] = stat(true)
+	opaqueMethods["$fileinfo.Mode"] = func(e *Exec, fr *Frame, recv IfaceV, a []Value) Value {
+		return e.tf.Int(recv.V.(Ptr).Obj.Aux.(int64))
+	}
+	opaqueMethods["$fileinfo.IsDir"] = func(e *Exec, fr *Frame, recv IfaceV, a []Value) Value {
+		return e.tf.Bool(fs.FileMode(recv.V.(Ptr).Obj.Aux.(int64)).IsDir())
+	}
+	modeFn := func(f func(fs.FileMode) bool) func(e *Exec, fr *Frame, fn *ssa.Function, a []Value) Value {
+		return func(e *Exec, fr *Frame, fn *ssa.Function, a []Value) Value {
+			m, ok := constInt(a[0].(*Term))
+			if !ok {
+				e.unsupported("FileMode method on a symbolic mode")
+			}
+			return e.tf.Bool(f(fs.FileMode(m)))
+		}
+	}
+	stubs["(io/fs.FileMode).IsRegular"] = modeFn(fs.FileMode.IsRegular)
+	stubs["(io/fs.FileMode).IsDir"] = modeFn(fs.FileMode.IsDir)
 }
